@@ -4,6 +4,7 @@ import (
 	"fmt"
 	"os"
 	"path/filepath"
+	"sync"
 )
 
 // Loader defines the interface for template loading
@@ -30,6 +31,8 @@ type FileSystemLoader struct {
 	defaultPaths []string
 	// Stores paths for each loaded template to avoid repeatedly searching for the file
 	templatePaths map[string]string
+	// Guards templatePaths: loaders are shared by every goroutine using the engine
+	pathsMu sync.Mutex
 }
 
 // ArrayLoader loads templates from an in-memory array
@@ -68,6 +71,9 @@ func NewFileSystemLoader(paths []string) *FileSystemLoader {
 
 // Load loads a template from the file system
 func (l *FileSystemLoader) Load(name string) (string, error) {
+	l.pathsMu.Lock()
+	defer l.pathsMu.Unlock()
+
 	// Check if we already know the location of this template
 	if filePath, ok := l.templatePaths[name]; ok {
 		// Check if file still exists at this path
@@ -138,6 +144,9 @@ func (l *FileSystemLoader) SetSuffix(suffix string) {
 
 // GetModifiedTime returns the last modification time of a template file
 func (l *FileSystemLoader) GetModifiedTime(name string) (int64, error) {
+	l.pathsMu.Lock()
+	defer l.pathsMu.Unlock()
+
 	// If we already know where this template is, check that path directly
 	if filePath, ok := l.templatePaths[name]; ok {
 		info, err := os.Stat(filePath)
